@@ -194,7 +194,8 @@ CORE = {
             _MOD: ['Model.__init__', 'Model.property_x', 'Model.property_y',
                    'Model.property_z', 'Model.mu_r', 'Model.epsilon_r',
                    'Model._init_parameter', 'Model._check_positive_finite',
-                   'VolumeModel.__init__']},
+                   'VolumeModel.__init__'],
+            _SIM: ['Simulation.gradient']},
     'C15': {_MAP: ['interpolate', 'interp_volume_average',
                    '_interp_volume_average_adj', '_points_from_grids'],
             _MOD: ['Model.interpolate_to_grid']},
@@ -217,7 +218,7 @@ CORE = {
             'emg3d/cli/main.py': ['main']},
     'C19': {_MP_: ['layered', '_empymod_fwd', '_get_points', '_fd_gradient'],
             _MOD: ['Model.extract_1d'],
-            _SIM: ['Simulation._compute_1d']},
+            _SIM: ['Simulation._compute_1d', 'Simulation.gradient']},
     'C20': {_TIM: ['Fourier.*']},
 }
 
